@@ -72,9 +72,15 @@ class Arr:
     def ddir(self, d):
         return os.path.join(self.root, d)
 
+    def level_splits(self, level):
+        """number of split files of a parity level (`level_split_counts` overrides the array-wide `splits`)"""
+        lsc = getattr(self, 'level_split_counts', None)
+        return lsc[level] if lsc else self.splits
+
     def parity_files(self, level):
         base = os.path.join(self.root, 'par', LEV_NAMES[level])
-        return [base + ('.%d' % s if self.splits > 1 else '') for s in range(self.splits)]
+        n = self.level_splits(level)
+        return [base + ('.%d' % s if n > 1 else '') for s in range(n)]
 
     def write_conf(self, disks=None, blocksize=None, hashsize=None, nparity=None, splits_override=None):
         L = ['blocksize %d' % ((blocksize or self.block) // 1024)]
